@@ -223,7 +223,7 @@ impl Property for ExplProp {
             .iter()
             .map(|k| (*k, match k {
                 K::Element | K::Cumulative | K::Times | K::Div | K::Max | K::Min | K::Abs => 5,
-                K::Clause | K::Conj | K::PredClause => 1,
+                K::Clause | K::Conj | K::PredClause | K::ViewClause => 1,
                 _ => 3,
             }))
             .collect();
